@@ -3,6 +3,7 @@ import random
 
 from ..core import derive_seed
 from ..e1 import Case, run_case
+from ..gen import atoms
 from .common import (
     LaunchMonitor, RATES_LOSSY, RATES_NONE, RATES_SCHED, base_stats,
     launched_instances, sample_of, swarm_gkw, verdict_of, viol_dicts,
@@ -87,7 +88,29 @@ def end_checks(res):
         res.sim.probe('stall_predicted')
         stuck = min([p for _, p in clo['unsat']] +
                     [p for _, p in clo['incomplete']])
-        must = {i for i in ran_model if i[1] <= stuck}
+        # instances whose whole upstream cone lies at or before the stuck
+        # point cannot be held back by the runahead limit
+        memo = {}
+
+        def reach(i, depth=0):
+            if i in memo:
+                return memo[i]
+            memo[i] = i[1]
+            r = i[1]
+            if depth < 50:
+                for e in model.prereq_exprs(*i):
+                    for a in model.conc_atoms(e):
+                        u = (a[0], a[1])
+                        if u in ran_model:
+                            r = max(r, reach(u, depth + 1))
+            memo[i] = r
+            return r
+        must = {i for i in ran_model if reach(i) <= stuck}
+        if any(a.kind == 'rel' and a.off > 0 for s in prog.sections
+               for e, _ in s.lines for a in atoms(e)):
+            # a stalled cycle legitimately holds back the sources of future
+            # triggers through the runahead limit: no lower bound then
+            must = set()
     else:
         must = ran_model
     missing = must - ran_real
@@ -102,7 +125,7 @@ def end_checks(res):
                 'instances': sorted(prog.iid(*i) for i in missing),
                 'chain_break_at': sorted(prog.iid(*i) for i in roots)})
             preds['parentless_chain_broken'] = ['chain_break']
-    if not missing and not extra:
+    if ran_real == ran_model:
         if verdict != clo['verdict']:
             res.violate('wrong_end_verdict', {
                 'model': clo['verdict'], 'real': res.stops[-1],
